@@ -348,17 +348,18 @@ def check_propagate(ctx):
                 if x.k == "field" and x.extra[1] == "result":
                     return any(c.nid in pwb for c in x.calls())
                 x = x.a[0]
-            return e.k == "local" and body.local_name(e.extra) == "result"
+            return e.k == "local" and "Result<(), error::FeoxError>" in (body.local_ty(e.extra) or "") and body.local_name(e.extra) is not None
         edges = A.pred_edges(body, is_result, "Err")
         ctx.check(len(edges) >= 1, inst, "GUARD", body.path, "BatchOutcome.result is inspected", body.where(pwb[0]) if pwb else None)
-        locs = [l for l in range(len(body.locals)) if body.local_name(l) == "first_error"]
+        from rules import roles
+        locs = roles.locals_with_role(body, "first_error")
         sets = []
         for l in locs:
             for d in body.defs.get(l, []):
                 v = A.tracer(body, False).node_value(d)
                 if v.k == "agg" and (v.extra or "").endswith("Option::Some"):
                     sets.append(d)
-        already = A.pred_edges(body, lambda e: e.k == "local" and body.local_name(e.extra) == "first_error", "Some")
+        already = A.pred_edges(body, lambda e: e.k == "local" and e.extra in locs, "Some")
         for (sw, l) in edges:
             r, ps = A.reach(body, edge_targets(body, sw, l), blocked_nodes=set(sets), blocked_edges=set(already))
             bad = [x for x in A.ok_nodes(body) + R.call("ShardedWriteBuffer::requeue_entries")(body) if x in r]
@@ -374,7 +375,27 @@ def check_propagate(ctx):
         R.follow(ctx, inst, body, pwb, [x for x in ext], "the retries returned by process_write_batch are appended to shard_retries", b_desc="shard_retries.extend")
 
 
+def check_scrub(ctx):
+    from rules.common import check_scrub_release_clears_group
+    check_scrub_release_clears_group(ctx, "C09.contain/scrub-release")
+    # release_allocations (allocation failure path): the reservation cleared is the one just released
+    inst = "C09.contain/release_allocations"
+    b = ctx.fn("write_buffer::release_allocations", inst)
+    if b is not None:
+        rs = ctx.sites(b, R.call("FreeSpaceManager::release_sectors"), inst, exact=1)
+        cr = ctx.sites(b, R.call("write_buffer::clear_reserved_sector"), inst, exact=1)
+        for (sw, l) in R.guard_edges_for_call(b, rs, "Ok"):
+            r, ps = A.reach(b, edge_targets(b, sw, l), blocked_nodes=set(cr))
+            bad = [x for x in b.return_nodes() + R.call("Iterator::next")(b) if x in r]
+            ctx.check(not bad, inst, "FOLLOW", b.path, "a released allocation always has its reservation cleared before the next one", b.where(sw))
+        if rs and cr:
+            a = origin_names(b, R.arg_expr(b, b.nodes[cr[0]], 0)) | names_of(b, R.arg_expr(b, b.nodes[cr[0]], 0))
+            c = origin_names(b, R.arg_expr(b, b.nodes[rs[0]], 2)) | names_of(b, R.arg_expr(b, b.nodes[rs[0]], 2))
+            ctx.check(bool(a & c), inst, "PROVENANCE", b.path, "the reservation cleared belongs to the allocation that was released", b.where(cr[0]), {"cleared": sorted(a), "released": sorted(c)})
+
+
 def check(ctx):
+    check_scrub(ctx)
     check_nodiscard(ctx)
     check_arms(ctx)
     check_contain(ctx)
